@@ -30,3 +30,12 @@ chk("C02","exploration",
  "Federation graphs (actors dereferencable / with stored inbox / missing / garbled / unknown type, nested and cyclic collections and pages, Public in both spellings, the sender) x every ordered sequence of <= 2 (thorough 3) addressed entries x 3 placements over the five addressing properties x depth limits are delivered through Send and client POST on the real code; an independent recursive function over the graph description gives the expected inbox set and the set of IRIs that may be dereferenced; the BatchDeliver call must be single, duplicate-free and equal to the expected set.",
  "Trusted: the graph oracle; order of recipients and repeated dereferences are not asserted; non-actor / inbox-less documents are outside the alphabet.",
  "bounded-exhaustive enumeration of federation graphs and addressings against a reference model","DESIGN.md 3 C02")
+
+chk("C03","exploration",
+ "Every outbox input shape (bare objects, Create with 1..2 (thorough 3) objects, Like/Announce/Update/Add with an embedded object, Follow) x 5 hidden-recipient options independently on the activity and each embedded object x to x 4 actor/entry combinations, automatic Accept/Reject of a Follow with hidden recipients, and the GET handler over every type that has 'object' with bto/bcc at object depth 0..3 in 4 list shapes are executed on the real code; every payload handed to the transport and every served body is parsed and searched for bto/bcc; hidden recipients must still be among the recipients.",
+ "Trusted: the application model's delivery log. Stored copies may keep bto/bcc; deeper nesting is not asserted for delivery payloads.",
+ "bounded-exhaustive enumeration of addressing shapes against a payload scanner","DESIGN.md 3 C03")
+chk("C20","exploration",
+ "All ordered-collection pages with item sequences of length 0..5 (thorough 6) over a 6-element alphabet are served through GetInbox and GetOutbox, and values of every vocabulary type, a Tombstone, a missing value and a failing Get through the handler, at 25 clock instants in 5 zones; body, de-duplication, Content-Type, Date and Digest (recomputed over the bytes written) and status are compared with a reference computed from the description.",
+ "Trusted: counting writer; the decoder/encoder round trip is exact for these documents (C01).",
+ "bounded-exhaustive enumeration of page contents against a first-occurrence reference model","DESIGN.md 3 C20")
